@@ -285,6 +285,26 @@ func c20Eval(cs C20Case) (res string, queries int) {
 		qs = append(qs, q{uint32(33), 33, "33"}, q{"Proxy-State", 33, "Proxy-State"})
 	}
 	qs = append(qs, q{uint32(c20AbsentCode), c20AbsentCode, "absent 263"}, q{c20AbsentName, c20AbsentCode, "absent Session-Id"}, q{uint32(c20UndefCode), c20UndefCode, "undefined 60001"}, q{"No-Such-AVP", 0, "undefined name"})
+		// every non-empty result list is kept by the caller (it belongs to the caller) and compared
+		// with a copy after all the later searches of this pass
+		type keptResult struct {
+			desc      string
+			got, copy []*diam.AVP
+		}
+		var kept []keptResult
+		keep := func(desc string, got []*diam.AVP) {
+			if len(got) > 0 {
+				kept = append(kept, keptResult{desc, got, append([]*diam.AVP{}, got...)})
+			}
+		}
+		checkKept := func() string {
+			for _, k := range kept {
+				if !samePtrs(k.got, k.copy) {
+					return fmt.Sprintf("the list returned by %s (%d AVPs), kept by the caller, holds other AVPs after later searches on the same message", k.desc, len(k.copy))
+				}
+			}
+			return ""
+		}
 		for _, x := range qs {
 			var want []*diam.AVP
 			if x.code != 0 {
@@ -292,6 +312,7 @@ func c20Eval(cs C20Case) (res string, queries int) {
 			}
 			queries += 2
 			got, err := m.FindAVPs(x.key, 0)
+			keep("FindAVPs("+x.desc+")", got)
 			if len(want) == 0 {
 				if err == nil && len(got) != 0 {
 					return fmt.Sprintf("FindAVPs(%s): %d AVPs returned for a code absent from the message", x.desc, len(got)), queries
@@ -307,6 +328,9 @@ func c20Eval(cs C20Case) (res string, queries int) {
 			} else if err != nil || one != want[0] {
 				return fmt.Sprintf("FindAVP(%s): did not return the first AVP in depth-first document order (err %v)", x.desc, err), queries
 			}
+		}
+		if s := checkKept(); s != "" {
+			return s, queries
 		}
 		// paths of length <= 3 over the alphabet + the absent code, by number and by name
 		alpha := append(append([]uint32{}, c20Codes...), c20AbsentCode)
@@ -357,6 +381,12 @@ func c20Eval(cs C20Case) (res string, queries int) {
 			if !samePtrs(got, want) {
 				return fmt.Sprintf("FindAVPsWithPath(%v): %d AVPs, the strict per-level walk finds %d (or other AVPs / order)", keys, len(got), len(want)), queries
 			}
+			if len(p) == 1 {
+				keep(fmt.Sprintf("FindAVPsWithPath(%v)", keys), got)
+			}
+		}
+		if s := checkKept(); s != "" {
+			return s, queries
 		}
 		// paths with an element the message's dictionary cannot resolve (an undefined number, an
 		// undefined name) in front of, between and behind resolvable ones: no AVP lies on such a path
@@ -555,7 +585,7 @@ func c20Enum(ctx *ev.Ctx, fn func(C20Case)) string {
 			}
 		}
 	}
-	return "all AVP trees over two leaf codes, two grouped codes and one leaf that carries the code of a Grouped AVP under a foreign vendor id (opaque data, not a group) and one container whose code the dictionary declares as OctetString but which the application assembled as a group: every single node of nesting depth <=3 with inner width <=3 (outermost group: <=2 children quick, <=3 thorough), alone and next to a leaf in both orders; every ordered pair (and a family of triples) of depth-<=2 nodes; empty groups, repeated codes at several depths, groups in groups; leaves with codes 2147483648 and 3000000000 (private dictionary; asked for as uint32, as int and by name); chains of 1..40 nested groups (innermost empty or holding a leaf, with or without a sibling leaf at every level). Per tree: FindAVP and FindAVPs by uint32, int and name for every code of the alphabet, a defined but absent code, an undefined code and an undefined name; FindAVPsWithPath for every path of length <=3 over the alphabet plus the absent code, alternating number (uint32 or int) and name per step, and paths with an unresolvable element in front of, between and behind resolvable ones (never an AVP). Every tree is searched twice: in a message carrying dict.Default and in one carrying a private dictionary that names the four codes differently and attaches the default names to codes absent from the tree (a name must resolve through the message's own dictionary). After the first round of queries each message is edited without going through Message.AddAVP / InsertAVP (a member added to its first group, its first top-level AVP cut out of the exported slice, its AVPs replaced by Marshal) and every query is asked again. Path searches are also made overlapping in time (a nested search on another message, started from inside the outer one through a caller-defined data type) after a search whose path did not resolve. Every tree in which a group subtree occurs more than once is also built with ONE node object for all its occurrences (a prebuilt group attached in several places): every occurrence must still be reported, in pre-order. Messages of a non-zero application: paths through groups the base application defines into AVPs only the message's application defines (Credit-Control, and a private dictionary that gives one name two codes in two applications). The caller's path slice is compared with a copy after every path search (it is the caller's). Results are compared by pointer identity with a pre-order reference walk / strict per-level match."
+	return "all AVP trees over two leaf codes, two grouped codes and one leaf that carries the code of a Grouped AVP under a foreign vendor id (opaque data, not a group) and one container whose code the dictionary declares as OctetString but which the application assembled as a group: every single node of nesting depth <=3 with inner width <=3 (outermost group: <=2 children quick, <=3 thorough), alone and next to a leaf in both orders; every ordered pair (and a family of triples) of depth-<=2 nodes; empty groups, repeated codes at several depths, groups in groups; leaves with codes 2147483648 and 3000000000 (private dictionary; asked for as uint32, as int and by name); chains of 1..40 nested groups (innermost empty or holding a leaf, with or without a sibling leaf at every level). Per tree: FindAVP and FindAVPs by uint32, int and name for every code of the alphabet, a defined but absent code, an undefined code and an undefined name; FindAVPsWithPath for every path of length <=3 over the alphabet plus the absent code, alternating number (uint32 or int) and name per step, and paths with an unresolvable element in front of, between and behind resolvable ones (never an AVP). Every tree is searched twice: in a message carrying dict.Default and in one carrying a private dictionary that names the four codes differently and attaches the default names to codes absent from the tree (a name must resolve through the message's own dictionary). After the first round of queries each message is edited without going through Message.AddAVP / InsertAVP (a member added to its first group, its first top-level AVP cut out of the exported slice, its AVPs replaced by Marshal) and every query is asked again. Path searches are also made overlapping in time (a nested search on another message, started from inside the outer one through a caller-defined data type) after a search whose path did not resolve. Every tree in which a group subtree occurs more than once is also built with ONE node object for all its occurrences (a prebuilt group attached in several places): every occurrence must still be reported, in pre-order. Messages of a non-zero application: paths through groups the base application defines into AVPs only the message's application defines (Credit-Control, and a private dictionary that gives one name two codes in two applications). The caller's path slice is compared with a copy after every path search (it is the caller's); every non-empty list returned by FindAVPs / a one-element path search is kept and compared with a copy after all later searches on the message. Results are compared by pointer identity with a pre-order reference walk / strict per-level match."
 }
 
 // c20AppPaths: messages of a NON-ZERO application. Every element of a path resolves through the
